@@ -173,7 +173,7 @@ func TestDifferential(t *testing.T) {
 	if evid.ReplayPath() != "" {
 		t.Skip()
 	}
-	evid.Check(t, "differential", evid.Scale(24000, 1200000), prop)
+	evid.Check(t, "differential", evid.Scale(16000, 1200000), prop)
 }
 
 func TestReplay(t *testing.T) {
